@@ -324,6 +324,9 @@ def run_case(case, schedule, points, keep_trace=False):
     return [norm_result(r) for r in results], s, residue, lru
 
 
+MUST_SUCCEED_ALONE = {"filecomp", "deps", "media", "parsetag", "dynexpr", "sharedinst", "sharedtpl"}
+
+
 def solo_results(case):
     out = []
     for i in range(len(case["tasks"])):
@@ -334,6 +337,10 @@ def solo_results(case):
                 r = ("ok", tasks[i]())
             except Exception as e:  # noqa
                 r = ("exc", e)
+                if case["tasks"][i]["t"] in MUST_SUCCEED_ALONE:
+                    # these hand-built task kinds render fine alone; an exception here means the HARNESS is broken and the pair
+                    # would compare two identical failures (that is how the file-based pairs once were vacuous): exit 2
+                    raise RuntimeError("harness: solo run of task kind %r raised %r" % (case["tasks"][i]["t"], e))
         out.append(norm_result(r))
     env.reset()
     return out
